@@ -1,11 +1,11 @@
 """C05 part: frames (RFC 9000 §12.4/§19, RFC 9221 DATAGRAM, the two s2n extension frames)."""
 from vlib import *
 
-PROP_MODULES = ["QuicProofs.Props.C05Frame"]
+PROP_MODULES = ["QuicProofs.Props.C05Frame", "QuicProofs.Props.C05FrameRfc"]
 BRIDGES = ["QuicProofs.Bridge.Frame"]
 
 # frame types whose per-type theorems are not finished yet (reported in the evidence)
-UNFINISHED = ["impl_eq_rfc_frame (agreement with the Lean RFC transcription) is only checked by the differential run so far"]
+UNFINISHED = []
 
 
 def run(ctx):
